@@ -19,7 +19,7 @@ import (
 // addresses passed to the simulated dialer; no match => client closed and zero dials.
 func init() {
 	Register(&Scenario{Prop: "C29", Desc: "lite routing: first matching route, glob semantics, $n substitution", Run: runC29,
-		Quick: 1200, Thorough: 200000,
+		Quick: 600, Thorough: 200000,
 		Real:  "proxy handshake handler -> lite.Forward/findRoute/FindRouteWithGroups/substituteBackendParams, ClearVirtualHost, strategy (sequential)",
 		Model: "raw client; simulated dialer (all backends refuse, so the whole candidate list is dialled in order); refGlob reference matcher"})
 }
